@@ -5,6 +5,7 @@ import (
 	"github.com/vulcand/oxy/v2/zverif/c02"
 	"github.com/vulcand/oxy/v2/zverif/c03"
 	"github.com/vulcand/oxy/v2/zverif/c10"
+	"github.com/vulcand/oxy/v2/zverif/c11"
 	"github.com/vulcand/oxy/v2/zverif/c14"
 	"github.com/vulcand/oxy/v2/zverif/c17"
 	"github.com/vulcand/oxy/v2/zverif/c19"
@@ -12,6 +13,8 @@ import (
 )
 
 func init() {
+	parts["c11"] = c11.Run
+	replays["c11"] = c11.Replay
 	parts["c19"] = c19.Run
 	replays["c19"] = c19.Replay
 	parts["c10"] = c10.Run
